@@ -11,6 +11,12 @@ package main
 //	B<id>     Conn.Close on connection id, up to and including the Close of its transport
 //	E<id>,<d> ... the rest of that Conn.Close: the onDisconnect callback (onConnectionDropped), with d for its dial
 //	X         Client.Close
+//	Q<d>      P<d> with a Client.Close started on another goroutine while Dial is running (if it is called)
+//	F<id>,<d> E<id>,<d> with a Client.Close started on another goroutine while the callback's Dial is running
+//
+// Q and F: pickConn and onConnectionDropped dial with the client's lock held, so the Close can only run once they are
+// done: the outcome must be that of the two calls one after the other (the driver runs the model's two steps and
+// prints one record). A dial moved out of the lock lets the Close slip in between.
 //
 // The events between B<id> and its E<id> run INSIDE the transport's Close method, i.e. between the CAS on
 // Conn.closed and the callback - the interleaving point the model's two halves stand for - on the same goroutine
@@ -112,7 +118,7 @@ func parsePoolEvents(s string) []poolEv {
 		e := poolEv{kind: tok[0]}
 		rest := tok[1:]
 		switch e.kind {
-		case 'P':
+		case 'P', 'Q':
 			e.d = rest[0]
 		case 'S':
 			parts := strings.Split(rest, ",")
@@ -120,7 +126,7 @@ func parsePoolEvents(s string) []poolEv {
 			e.b = parts[1] == "1"
 		case 'B':
 			e.id, _ = strconv.Atoi(rest)
-		case 'E':
+		case 'E', 'F':
 			parts := strings.Split(rest, ",")
 			e.id, _ = strconv.Atoi(parts[0])
 			e.d = parts[1][0]
@@ -141,6 +147,9 @@ type poolHarness struct {
 	log   []string // dials / shuts since the last record
 	recs  []string
 
+	mu            sync.Mutex // guards log: a racing Client.Close logs from its own goroutine
+	raceClose     bool       // the next dial starts a Client.Close on another goroutine
+	raceDone      chan struct{}
 	inClientClose bool
 	frames        []*poolFrame // Conn.Close calls the harness has started and that have not returned
 }
@@ -154,18 +163,54 @@ type poolFrame struct {
 
 var errPoolDial = errors.New("pool: dial refused")
 
+func (h *poolHarness) addLog(s string) {
+	h.mu.Lock()
+	h.log = append(h.log, s)
+	h.mu.Unlock()
+}
+
 func (h *poolHarness) dialFn() (net.Conn, error) {
 	d := h.dial
 	h.dial = 'e' // one dial per event at most is what the model allows; a second one shows as De-
+	if h.raceClose {
+		// a Client.Close on another goroutine while this dial is under way; it gets a few milliseconds to do
+		// whatever the client's lock lets it do
+		h.raceClose = false
+		h.inClientClose = true
+		h.raceDone = make(chan struct{})
+		go func() {
+			defer close(h.raceDone)
+			_ = h.cl.Close()
+		}()
+		time.Sleep(3 * time.Millisecond)
+	}
 	if d == 'e' {
-		h.log = append(h.log, "De-")
+		h.addLog("De-")
 		return nil, errPoolDial
 	}
 	t := &poolTransport{id: h.next, h: h, hsFail: d == 'h', closeCh: make(chan struct{}),
 		rd: bytes.NewReader([]byte{0, 0, 0, 4, 0, 0, 0, 0, 0})}
 	h.next++
-	h.log = append(h.log, fmt.Sprintf("D%c%d", d, t.id))
+	h.addLog(fmt.Sprintf("D%c%d", d, t.id))
 	return t, nil
+}
+
+// finishRace waits for the racing Client.Close, if one was started; if the dial never happened the Close is run now
+// (the model's second step either way).
+func (h *poolHarness) finishRace() {
+	if h.raceClose {
+		h.raceClose = false
+		h.inClientClose = true
+		_ = h.cl.Close()
+	} else if h.raceDone != nil {
+		select {
+		case <-h.raceDone:
+		case <-time.After(10 * time.Second):
+			h.addLog("CLOSE-HUNG")
+		}
+		h.raceDone = nil
+	}
+	h.inClientClose = false
 }
 
 func (h *poolHarness) record(res string) {
@@ -180,13 +225,15 @@ func (h *poolHarness) record(res string) {
 	if closed {
 		cl = "1"
 	}
+	h.mu.Lock()
 	h.recs = append(h.recs, res+"/"+strings.Join(h.log, ",")+"/"+strings.Join(ids, ".")+"/"+cl)
 	h.log = h.log[:0]
+	h.mu.Unlock()
 }
 
 // onShut runs inside the transport's Close.
 func (h *poolHarness) onShut(t *poolTransport) {
-	h.log = append(h.log, fmt.Sprintf("K%d", t.id))
+	h.addLog(fmt.Sprintf("K%d", t.id))
 	if t.hsFail || h.inClientClose || len(h.frames) == 0 {
 		return
 	}
@@ -200,9 +247,10 @@ func (h *poolHarness) onShut(t *poolTransport) {
 	// run what the scenario puts between the halves, up to this connection's E event
 	for h.pos < len(h.evs) {
 		e := h.evs[h.pos]
-		if e.kind == 'E' && e.id == t.id {
+		if (e.kind == 'E' || e.kind == 'F') && e.id == t.id {
 			h.pos++
 			h.dial = e.d
+			h.raceClose = e.kind == 'F'
 			f.ended = true
 			return
 		}
@@ -216,10 +264,14 @@ func (h *poolHarness) runOne() {
 	e := h.evs[h.pos]
 	h.pos++
 	switch e.kind {
-	case 'P':
+	case 'P', 'Q':
 		h.dial = e.d
+		h.raceClose = e.kind == 'Q'
 		c, err := h.cl.VerifPickConn()
 		h.dial = 'e'
+		if e.kind == 'Q' {
+			h.finishRace()
+		}
 		switch {
 		case err == nil && c != nil:
 			t := c.VerifTransport().(*poolTransport)
@@ -250,6 +302,9 @@ func (h *poolHarness) runOne() {
 		_ = c.Close() // B, the events up to E, and E all happen in here when the CAS succeeds
 		h.frames = h.frames[:len(h.frames)-1]
 		h.dial = 'e'
+		if f.ended && h.evs[h.pos-1].kind == 'F' {
+			h.finishRace()
+		}
 		switch {
 		case !f.hit:
 			h.record("-") // already closed: nothing happened
@@ -258,6 +313,11 @@ func (h *poolHarness) runOne() {
 		}
 	case 'E':
 		// an E with no Conn.Close of that connection under way: nothing to run
+		h.record("-")
+	case 'F':
+		// no callback to run: only the Client.Close happens
+		h.raceClose = true
+		h.finishRace()
 		h.record("-")
 	case 'X':
 		h.inClientClose = true
@@ -316,6 +376,10 @@ func genPool(c *genctx) {
 		"Po;S0,0;Po;X;X;Po;B0;E0,o;B1;E1,o",
 		"Po;B0;Po;E0,o;Po",
 		"Po;S0,0;Po;S1,0;Po;B0;B1;B2;E2,o;E1,h;E0,e;Po;S3,0;Po",
+		"Po;B0;F0,o;Po",
+		"Po;S0,0;Qo;Po",
+		"Po;S0,0;Po;B1;Qh;F1,o",
+		"Qo;Po",
 	}
 	for _, f := range fixed {
 		res := runPool("pool " + f)
@@ -359,7 +423,12 @@ func genPool(c *genctx) {
 			x := c.r.intn(100)
 			switch {
 			case x < 38:
-				evs = append(evs, "P"+string(dialKind()))
+				k := "P"
+				if mayClose && c.r.chance(12) {
+					k = "Q"
+					closedClient = true
+				}
+				evs = append(evs, k+string(dialKind()))
 				made++ // at most one transport per pick
 			case x < 58:
 				b := "0"
@@ -377,7 +446,12 @@ func genPool(c *genctx) {
 				if len(stack) > 0 && c.r.chance(85) {
 					id := stack[len(stack)-1]
 					stack = stack[:len(stack)-1]
-					evs = append(evs, fmt.Sprintf("E%d,%c", id, dialKind()))
+					k := "E"
+					if mayClose && c.r.chance(20) {
+						k = "F"
+						closedClient = true
+					}
+					evs = append(evs, fmt.Sprintf("%s%d,%c", k, id, dialKind()))
 					made++
 				} else {
 					id := pickID()
